@@ -69,6 +69,12 @@ Step ==
             /\ viol' = viol \cup (IF t.res = "unobserved" THEN {} ELSE {<<l, "ApplyFailedUnobserved">>})
                             \cup (IF t.idx + 1 > Len(ref) THEN {<<l, "Order">>}
                                   ELSE IF t.res # "unobserved" \/ Same(t.st, ref[t.idx + 1]) THEN {} ELSE {<<l, "ReplicaDiverged">>})
+       [] t.ev = "apply" /\ t.r = "D" ->       \* a replica with a caller of its own waiting while it applies entries proposed elsewhere:
+            /\ ref' = ref /\ refout' = refout   \* that caller must hear nothing (C11: an outcome reaches its own caller and no one else)
+            /\ viol' = viol \cup (IF t.res = "misdelivered" THEN {<<l, "OutcomeMisdelivered">>} ELSE {})
+                            \cup (IF t.res \in {"unobserved", "misdelivered"} THEN {} ELSE {<<l, "ApplyFailedUnobserved">>})
+                            \cup (IF t.idx + 1 > Len(ref) THEN {<<l, "Order">>}
+                                  ELSE IF t.res # "unobserved" \/ Same(t.st, ref[t.idx + 1]) THEN {} ELSE {<<l, "ReplicaDiverged">>})
        [] t.ev = "apply" /\ t.r # "A" ->
             /\ ref' = ref /\ refout' = refout
             /\ viol' = viol \cup (IF t.idx > Len(refout) THEN {<<l, "Order">>}
